@@ -643,6 +643,46 @@ impl ProofPool {
     }
 }
 
+/// Verification hooks (add-only, guarded): read-only views of the pool's private state so an
+/// out-of-tree harness can state the representation invariant. Nothing here mutates the pool.
+#[cfg(quantus_network_qp_zk_circuits_verif)]
+impl ProofPool {
+    pub fn verif_index_len(&self) -> usize {
+        self.nullifier_index.len()
+    }
+
+    pub fn verif_index_key(&self, nullifier: &BytesDigest) -> Option<BatchKey> {
+        self.nullifier_index.get(nullifier).copied()
+    }
+
+    pub fn verif_bucket_keys(&self) -> Vec<BatchKey> {
+        self.buckets.iter().map(|(key, _)| *key).collect()
+    }
+
+    pub fn verif_bucket_len(&self, key: &BatchKey) -> Option<usize> {
+        self.buckets.get(key).map(|bucket| bucket.proofs.len())
+    }
+
+    /// (nullifiers, volume, admitted_at) of the `i`-th queued proof of a bucket.
+    pub fn verif_proof_meta(&self, key: &BatchKey, i: usize) -> Option<(&[BytesDigest], u64, Instant)> {
+        let queued = self.buckets.get(key)?.proofs.get(i)?;
+        Some((queued.nullifiers.as_slice(), queued.volume, queued.admitted_at))
+    }
+
+    pub fn verif_proof(&self, key: &BatchKey, i: usize) -> Option<&Proof> {
+        Some(&self.buckets.get(key)?.proofs.get(i)?.proof)
+    }
+
+    pub fn verif_last_snapshot_at(&self, key: &BatchKey) -> Option<Option<Instant>> {
+        self.buckets.get(key).map(|bucket| bucket.last_snapshot_at)
+    }
+
+    /// (window start, attempts in the current window)
+    pub fn verif_budget(&self) -> (Instant, usize) {
+        (self.verify_window_started, self.verifies_in_window)
+    }
+}
+
 #[cfg(test)]
 mod tests {
     use super::*;
